@@ -402,6 +402,160 @@ func rulePublishedNotRecycled(c *core.Ctx, pkgs ...string) {
 			}
 		}
 	}
+	// local slices that are handed to a retaining callee and then recycled
+	type localFinding struct {
+		fn       *core.Func
+		pub, rec ast.Node
+		name     string
+		callee   string
+	}
+	var localBad []localFinding
+	nLocalPub := 0
+	retainCache := map[string]bool{}
+	var retains func(cf *core.Func, idx int) bool
+	retains = func(cf *core.Func, idx int) bool {
+		key := cf.Key + "#" + itoa(idx)
+		if v, ok := retainCache[key]; ok {
+			return v
+		}
+		retainCache[key] = false
+		// parameter object
+		var p types.Object
+		i := 0
+		for _, fl := range cf.Decl.Type.Params.List {
+			for _, nm := range fl.Names {
+				if i == idx || (i < idx && fl == cf.Decl.Type.Params.List[len(cf.Decl.Type.Params.List)-1] && isEllipsis(fl.Type)) {
+					p = cf.Info().Defs[nm]
+				}
+				i++
+			}
+		}
+		if p == nil {
+			return false
+		}
+		info := cf.Info()
+		res := false
+		ast.Inspect(cf.Decl.Body, func(m ast.Node) bool {
+			switch x := m.(type) {
+			case *ast.CompositeLit:
+				for _, el := range x.Elts {
+					v := el
+					if kv, ok := el.(*ast.KeyValueExpr); ok {
+						v = kv.Value
+					}
+					if core.ObjOf(info, v) == p {
+						res = true
+					}
+				}
+			case *ast.AssignStmt:
+				for i, l := range x.Lhs {
+					if i < len(x.Rhs) && core.ObjOf(info, x.Rhs[i]) == p {
+						if _, isSel := ast.Unparen(l).(*ast.SelectorExpr); isSel {
+							res = true
+						}
+					}
+				}
+			case *ast.CallExpr:
+				if id, ok := x.Fun.(*ast.Ident); ok && id.Name == "append" && len(x.Args) >= 2 {
+					for _, a := range x.Args[1:] {
+						if core.ObjOf(info, a) == p {
+							res = true
+						}
+					}
+				}
+			}
+			return true
+		})
+		retainCache[key] = res
+		return res
+	}
+	for _, sp := range pkgs {
+		pkg := c.Prog.Pkg(sp)
+		for _, fn := range c.Prog.Funcs(pkg) {
+			fn := fn
+			info := fn.Info()
+			type ev struct {
+				node   ast.Node
+				callee string
+			}
+			pubs := map[types.Object][]ev{}
+			recs := map[types.Object][]ast.Node{}
+			ast.Inspect(fn.Decl.Body, func(m ast.Node) bool {
+				switch x := m.(type) {
+				case *ast.AssignStmt:
+					for i, l := range x.Lhs {
+						if i >= len(x.Rhs) {
+							break
+						}
+						id, ok := ast.Unparen(l).(*ast.Ident)
+						if !ok {
+							continue
+						}
+						v, ok := info.ObjectOf(id).(*types.Var)
+						if !ok || v.IsField() {
+							continue
+						}
+						if _, isSlice := v.Type().Underlying().(*types.Slice); !isSlice {
+							continue
+						}
+						if sl, ok := ast.Unparen(x.Rhs[i]).(*ast.SliceExpr); ok && sl.High != nil && core.ObjOf(info, sl.X) == v {
+							if k, isK := core.IntConst(info, sl.High); isK && k == 0 {
+								recs[v] = append(recs[v], x)
+							}
+						}
+					}
+				case *ast.CallExpr:
+					callee := core.Callee(info, x)
+					if callee == nil {
+						return true
+					}
+					cf := c.Prog.FuncOf(callee)
+					if cf == nil {
+						return true
+					}
+					for i, a := range x.Args {
+						v, ok := core.ObjOf(info, a).(*types.Var)
+						if !ok || v.IsField() {
+							continue
+						}
+						if _, isSlice := v.Type().Underlying().(*types.Slice); !isSlice {
+							continue
+						}
+						if x.Ellipsis.IsValid() && i == len(x.Args)-1 {
+							continue
+						}
+						if retains(cf, i) {
+							pubs[v] = append(pubs[v], ev{x, cf.Key})
+							nLocalPub++
+						}
+					}
+				}
+				return true
+			})
+			for v, ps := range pubs {
+				for _, r := range recs[v] {
+					for _, pu := range ps {
+						// within one function body the recycling must come after the hand-over
+						lp, lr := core.EnclosingFuncLit(fn.Decl, pu.node), core.EnclosingFuncLit(fn.Decl, r)
+						if lp == lr {
+							var g *core.Graph
+							if lp == nil {
+								g = fn.Graph()
+							} else {
+								g = fn.LitGraph(lp)
+							}
+							pv, rv := g.VertexOf(pu.node), g.VertexOf(r)
+							if pv != nil && rv != nil && !g.ReachFrom(pv, false, nil)[rv] {
+								continue
+							}
+						}
+						localBad = append(localBad, localFinding{fn, pu.node, r, v.Name(), pu.callee})
+						break
+					}
+				}
+			}
+		}
+	}
 	fieldKey := func(f *types.Var) string {
 		// owner type name: search the package scope
 		for _, name := range f.Pkg().Scope().Names() {
@@ -435,5 +589,14 @@ func rulePublishedNotRecycled(c *core.Ctx, pkgs ...string) {
 			}
 		}
 		o.Require(nFields >= 5, "only %d slice fields found", nFields)
+		o.Fact("%d local slices handed to retaining callees", nLocalPub)
+		for _, lb := range localBad {
+			o.FailAt(lb.fn.Site(lb.rec, "recycled"), "%s: the local slice %s is handed to %s, which keeps it (%s), and is then recycled with %s: what is appended afterwards overwrites the operands already emitted", c.Prog.Pos(lb.rec.Pos()), lb.name, lb.callee, c.Prog.Pos(lb.pub.Pos()), c.Prog.Src(lb.rec))
+		}
 	})
+}
+
+func isEllipsis(e ast.Expr) bool {
+	_, ok := e.(*ast.Ellipsis)
+	return ok
 }
